@@ -349,10 +349,17 @@ def gen_doc(rng, feats=None, nblocks=None, bleed=None):
                'q { quotes: auto } ::marker { color: #555 } li::marker { font-variant-numeric: tabular-nums }')
     if rng.random() < 0.15:
         css.append('::footnote-call { content: "[" counter(footnote) "]" } @page { @footnote { border-top: 1px solid; margin-top: 3px } }')
+    dangling = rng.random() < 0.25      # use names that only OTHER documents define: a leak between renders would show
     for name in sorted(g.counter_styles):
+        if dangling and rng.random() < 0.6:
+            g.feats.add('dangling-counter-style')
+            continue
         css.append(COUNTER_STYLES[name])
     for fam in sorted(g.families | {body_family}):
         if fam in FONT_FACES:
+            if dangling and rng.random() < 0.6:
+                g.feats.add('dangling-font-family')      # rendered with a private FontConfiguration only (see gen_step)
+                continue
             css.append(FONT_FACES[fam])
             g.feats.add('@font-face')
     user_css = []
@@ -396,6 +403,7 @@ PENDING = {
                                            'its auto tracks differently',
     'c19:diskcache-del-removes-shared-folder': 'DiskCache.__del__ unlinks its files and removes the folder: two renders given the same '
                                                'cache folder break each other (FileNotFoundError) when the first Document is collected',
+    'c19:form-font-size-ignores-zoom': 'add_forms computes the font size of field appearances as style[font_size] * 0.75: not multiplied by zoom',
     'c19:bleedbox-cap-not-scaled': 'BleedBox is at most 10 points from the TrimBox whatever the zoom: it does not scale with zoom',
 }
 FOREIGN_KNOWN = {'c13:image-cache-ignores-orientation'}      # listed under another property: never re-reported here
@@ -464,6 +472,8 @@ def gen_step(rng, d, prof, docs, mode):
             'api': rng.choice(['write', 'render', 'render']),
             'sink': rng.choice(SINKS),
             'zoom': 1 if rng.random() < 0.8 else rng.choice(ZOOMS)}
+    if step['fc'] == 'shared' and 'dangling-font-family' in docs[d]['feats']:
+        step['fc'] = 'fresh'      # a shared FontConfiguration is a registry of @font-face rules by design
     if step['fc'] == 'none' and any('@font-face' in c for c in docs[d]['css']):
         step['fc'] = 'fresh'      # CSS objects with @font-face need the FontConfiguration of the render (documented)
     step['css'] = rng.choice(['fresh', 'shared']) if step['fc'] == 'shared' else 'fresh'
@@ -477,12 +487,15 @@ def gen_step(rng, d, prof, docs, mode):
 
 def gen_history(rng, hid, docs):
     n = rng.randint(2, 6)
-    mode = rng.choice(['one-html', 'one-doc', 'mixed', 'mixed', 'alternate'])
+    mode = rng.choice(['one-html', 'one-doc', 'mixed', 'mixed', 'alternate', 'alternate'])
     nd = len(docs)
     if mode in ('one-html', 'one-doc'):
         pool = [rng.randrange(nd)]
     elif mode == 'alternate':
         pool = rng.sample(range(nd), 2)
+        pairs = [(i, j) for i in range(nd) for j in docs[i].get('siblings', [])]
+        if pairs and rng.random() < 0.7:
+            pool = list(rng.choice(pairs))
     else:
         pool = [rng.randrange(nd) for _ in range(n)]
     steps = []
@@ -522,12 +535,29 @@ def classify_fc(doc):
     return '@font-face' in doc['html'] or any('@font-face' in c for c in doc.get('css', []))
 
 
+def make_sibling(d):
+    """The same document without its @font-face / @counter-style rules: it shares every style-like cache key with the
+    original and must not see the original's fonts or counter styles through anything but a shared FontConfiguration."""
+    import re
+    html = re.sub(r'@font-face\s*\{[^}]*\}', '', d['html'])
+    html = re.sub(r'@counter-style\s+\w+\s*\{[^}]*\}', '', html)
+    return {'html': html, 'css': [c for c in d['css'] if '@font-face' not in c], 'bleed': d['bleed'],
+            'feats': sorted(set(d['feats']) - {'@font-face', 'user-css-font-face'} | {'dangling-font-family', 'dangling-counter-style', 'sibling'}),
+            'profiles': d['profiles'], 'imgopts': d['imgopts']}
+
+
 def build_monitor(rng, ndocs, nhist, njobs):
     docs = []
-    for i in range(ndocs):
+    nbase = ndocs - ndocs // 4
+    for i in range(nbase):
         d = gen_doc(rng)
         d['profiles'], d['imgopts'] = gen_profiles(rng, d)
         docs.append(d)
+    with_rules = [i for i in range(nbase) if '@font-face' in docs[i]['html'] or '@counter-style' in docs[i]['html']]
+    for i in (with_rules * 4)[:ndocs - nbase]:
+        docs.append(make_sibling(docs[i]))
+        docs[-1]['sibling_of'] = i
+        docs[i].setdefault('siblings', []).append(len(docs) - 1)
     jobs = []
     # (a) fresh interpreter, one render, two hash seeds per key
     k = 0
@@ -633,12 +663,669 @@ def stream_monitor(run, rng, ndocs, nhist, njobs):
     return docs
 
 
+# ======================================================================================================================
+# stream 1: image cache, direct calls
+
+PRE_CACHE = ('From Coq Require Import ZArith List Bool.\nRequire Import WV.model.C19Cache.\nImport ListNotations.\n'
+             'Open Scope Z_scope.\n')
+NV, NU = 7, 6
+
+
+def termlit(t):
+    return '(%d, %d, [%s])' % (t[0], t[1], '; '.join(str(x) for x in t[2]))
+
+
+def gen_cache_history(rng, kind):
+    """kind: 'pure' (one variant per URL, ratio 1: the domain of cache_is_transparent), 'variants', 'resample'."""
+    n = rng.randint(2, 14)
+    urls = rng.sample(range(NU), rng.randint(1, 4))
+    var = {u: rng.randrange(NV) for u in urls}
+    resamples = {u: 0 for u in urls}
+    h = []
+    got = set()
+    for _ in range(n):
+        u = rng.choice(urls)
+        if rng.random() < 0.6 or (u not in got and rng.random() < 0.8):
+            v = var[u]
+            if kind == 'variants' and rng.random() < 0.5:
+                v = rng.randrange(NV)
+            h.append(['get', u, v])
+            got.add(u)
+        else:
+            r = 1
+            if kind == 'resample' and resamples[u] < 2 and rng.random() < 0.6:
+                r = rng.choice([2, 4])
+                resamples[u] += 1
+            h.append(['emit', u, r])
+    return h
+
+
+def history_class(h):
+    seen = {}
+    multi = False
+    for op in h:
+        if op[0] == 'get':
+            if seen.setdefault(op[1], op[2]) != op[2]:
+                multi = True
+    res = any(op[0] == 'emit' and op[2] != 1 for op in h)
+    return ('variants' if multi else '') + ('resample' if res else '') or 'pure'
+
+
+def stream_cache(run, rng, n):
+    cases = [{'history': [['get', 0, 0], ['get', 0, 2]]},                                         # the listed witness (orientation)
+             {'history': [['get', 5, 3], ['get', 5, 0]]},                                         # options: dpi
+             {'history': [['get', 0, 0], ['emit', 0, 4], ['get', 0, 0], ['emit', 0, 1]]},         # dpi down-sampling
+             {'history': [['get', 4, 0], ['get', 4, 1], ['get', 3, 0], ['get', 3, 0], ['emit', 3, 1]]}]   # failures are cached
+    for i in range(n):
+        cases.append({'history': gen_cache_history(rng, ['pure', 'pure', 'variants', 'resample'][i % 4])})
+    outs = common.run_impl('impl_c19', 'cache_history', cases, limit=120, chunksize=16)
+    table = None
+    coq, kept = [], []
+    for c, (st, o) in zip(cases, outs):
+        if st != 'ok':
+            run.fail('get_image_from_uri / get_x_object raised: %s' % (o,), {'stream': 'cache-direct', 'case': c, 'outcome': o},
+                     signature='c19:cache-direct-raise')
+            continue
+        table = table or o
+        hl = '; '.join(('Get %d %d' % (op[1], op[2])) if op[0] == 'get' else ('Emit %d %d' % (op[1], op[2])) for op in c['history'])
+        ol = '; '.join(('IGet (%d) (%d)' % (x[1], x[2])) if x[0] == 'get' else ('IEmit (%d)' % x[1]) for x in o['obs'])
+        coq.append('([%s], [%s], %d)' % (hl, ol, o['nfetch']))
+        kept.append((c, o))
+    if table is None:
+        run.oblige('corr:cache-direct', False, 'no case ran')
+        return
+    pre = PRE_CACHE + 'Definition FAILS : list Z := [%s].\nDefinition OK : list (Z * Z) := [%s].\n' % (
+        '; '.join(map(str, table['fails'])), '; '.join('(%d, %d)' % tuple(p) for p in table['ok']))
+    pre += 'Definition TGET : list (term * Z) := [%s].\n' % ';\n '.join('(%s, %d)' % (termlit(t), v) for t, v in table['tget'])
+    pre += 'Definition TEMIT : list (term * Z) := [%s].\n' % ';\n '.join('(%s, %d)' % (termlit(t), v) for t, v in table['temit'])
+    pre += ('Definition judge (c : list (op Z Z Z) * list iobs * Z) : nat :=\n'
+            '  cache_judge (FAILS, OK, TGET, TEMIT, fst (fst c), snd (fst c), snd c).\n')
+    try:
+        masks = common.eval_cases('c19cache', pre, 'list (op Z Z Z) * list iobs * Z', coq, 'judge')
+    except RuntimeError as exc:
+        run.oblige('corr:cache-direct', False, str(exc))
+        return
+    mism = [(c, o['obs']) for (c, o), m in zip(kept, masks) if m & 1]
+    run.oblige('corr:cache-direct(model run on the measured cold values vs get_image_from_uri/get_x_object on one dict)',
+               not mism, 'first disagreements: %s' % mism[:2])
+    classes = {}
+    for (c, o), m in zip(kept, masks):
+        k = history_class(c['history'])
+        classes.setdefault(k, [0, 0])
+        classes[k][0] += 1
+        if m & 2:
+            classes[k][1] += 1
+            if k == 'pure':
+                report(run, 'a cached image differs from the cold load although every URL has one variant and nothing is re-sampled',
+                       {'stream': 'cache-direct', 'case': c, 'impl': o['obs']}, 'c19:cache-not-transparent')
+            elif 'resample' in k:
+                report(run, 'image cache: value differs from the cold load after a dpi down-sampling on the shared object',
+                       {'stream': 'cache-direct', 'case': c}, 'c19:image-cache-dpi-overwrites-source')
+            else:
+                variants = {op[2] for op in c['history'] if op[0] == 'get'}
+                report(run, 'image cache: one URL, two variants, the second gets the first one\'s image',
+                       {'stream': 'cache-direct', 'case': c},
+                       'c13:image-cache-ignores-orientation' if variants <= {0, 1, 2} else 'c19:image-cache-ignores-options')
+    # the witnesses of the refutation theorems must behave on the implementation as in the model
+    wit_ok = all(m & 2 for m in masks[:3]) and not (masks[3] & 2)
+    run.oblige('witness:cache-refutations-replayed(two variants, dpi option, down-sampling; failures cached)', wit_ok,
+               'masks of the four fixed histories: %s' % masks[:4])
+    run.count('cache-direct', len(kept), [tuple(map(tuple, c['history'])) for c, _ in kept], samples=[kept[0][0], kept[-1][0]])
+    run.stream_info('cache-direct', classes={k: {'cases': v[0], 'not_transparent': v[1]} for k, v in classes.items()},
+                    table_terms=len(table['tget']) + len(table['temit']),
+                    rule='histories of 2..14 Get/Emit operations on one dict over 6 URLs (png, jpeg with exif, svg, undecodable, '
+                         'unfetchable, jpeg) x 7 variants (orientation from-image/none/90deg, dpi, optimize_images, jpeg_quality, forced '
+                         'svg mime type) x dpi ratios 1, 1/2, 1/4; the values of all 560 data terms are measured with cold isolated '
+                         'calls; judged in Coq (cache_judge): bit0 model vs implementation (objects identity, values, number of fetcher '
+                         'calls), bit1 value differs from the cold load')
+
+
+# ======================================================================================================================
+# stream 2: resource names, direct calls under four hash seeds
+
+PRE_NAMES = ('From Coq Require Import ZArith List Bool.\nRequire Import WV.model.C19Names.\nImport ListNotations.\n'
+             'Open Scope Z_scope.\n')
+
+
+def namelit(n):
+    k = n[0]
+    if k == 'A':
+        return '(NA %s (%s))' % ('true' if n[1] else 'false', n[2])
+    if k == 'I':
+        return '(NI (%d) %s)' % (n[1], 'true' if n[2] else 'false')
+    return '(%s %d%%nat)' % ({'S': 'NS', 'X': 'NX', 'P': 'NP', 'Sh': 'NSh'}[k], n[1])
+
+
+def gen_calls(rng):
+    n = rng.randint(1, 25)
+    nstreams = 1
+    calls = []
+    for _ in range(n):
+        sid = rng.randrange(nstreams) if rng.random() < 0.8 else 0
+        k = rng.choice(['alpha', 'alpha', 'state', 'group', 'pattern', 'shading', 'image', 'image', 'image'])
+        if k == 'alpha':
+            calls.append(['alpha', sid, rng.choice([0, 1, 5, 5, 7]), rng.random() < 0.4])
+        elif k == 'image':
+            calls.append(['image', sid, rng.choice([11, 11, 42, 7]), rng.random() < 0.5, rng.choice([1, 2, 3, 5, 8, 13, 21])])
+        else:
+            calls.append([k, sid])
+            if k in ('group', 'pattern'):
+                nstreams += 1
+    return calls
+
+
+def calllit(c):
+    k = c[0]
+    if k == 'alpha':
+        return 'CSetAlpha %d%%nat (%d) %s' % (c[1], c[2], 'true' if c[3] else 'false')
+    if k == 'image':
+        return 'CAddImage %d%%nat (%d) %s (%d)' % (c[1], c[2], 'true' if c[3] else 'false', c[4])
+    return '%s %d%%nat' % ({'state': 'CSetState', 'group': 'CAddGroup', 'pattern': 'CAddPattern', 'shading': 'CAddShading'}[k], c[1])
+
+
+def stream_names(run, rng, n):
+    cases = [{'calls': [['alpha', 0, 5, False], ['group', 0], ['state', 1], ['image', 1, 42, True, 3], ['image', 0, 42, True, 7],
+                        ['pattern', 0], ['shading', 2], ['image', 0, 42, True, 1], ['state', 0], ['group', 1]]}]
+    cases += [{'calls': gen_calls(rng)} for _ in range(n)]
+    font_docs = [{'html': '<style>@font-face{font-family:weasyprint;src:url(weasyprint.otf)}</style>'
+                          '<p style="font-family:weasyprint">abc <b style="font-family:DejaVu Sans">def</b> <i style="font-family:serif">ghi</i>'
+                          '<span style="font-family:monospace;font-weight:bold">jkl</span>'}]
+    jobs = [{'hashseed': s, 'timeout': 300, 'job': {'docs': [], 'histories': [], 'module_snapshot': False,
+                                                    'direct': {'fn': 'names_case', 'cases': cases}}} for s in range(4)]
+    jobs += [{'hashseed': s, 'timeout': 300, 'job': {'docs': [], 'histories': [], 'module_snapshot': False,
+                                                     'direct': {'fn': 'font_hashes', 'cases': font_docs}}} for s in range(4)]
+    outs = common.run_impl('impl_c19', 'spawn', jobs, limit=400, chunksize=1)
+    res = []
+    for j, (st, o) in zip(jobs, outs):
+        if st != 'ok' or o.get('crashed'):
+            run.oblige('names:job-ran', False, str(o)[:2000])
+            return
+        res.append(o['direct'])
+    names_runs, font_runs = res[:4], res[4:]
+    differ = [i for i in range(len(cases)) if any(json.dumps(r[i]) != json.dumps(names_runs[0][i]) for r in names_runs[1:])]
+    for i in differ[:2]:
+        report(run, 'resource names differ between hash seeds', {'stream': 'names-direct', 'case': cases[i],
+                                                                 'outputs': [r[i] for r in names_runs]}, 'c19:names-depend-on-hash-seed')
+    fdiff = any(json.dumps(r) != json.dumps(font_runs[0]) for r in font_runs[1:])
+    if fdiff:
+        report(run, 'font names differ between hash seeds', {'stream': 'names-direct', 'outputs': font_runs}, 'c19:font-names-depend-on-hash-seed')
+    # font naming: 6 letters from md5, family after '+'
+    import hashlib
+    fok = True
+    for st, o in font_runs[0]:
+        fok = fok and st == 'ok' and len(o['fonts']) >= 3 and all(len(f[0]) == 6 and f[0].isalpha() and f[0].isupper() and
+                                                                 f[1].startswith('/' + f[0] + '+') for f in o['fonts']) and \
+            len({f[0] for f in o['fonts']}) == len(o['fonts'])
+    run.oblige('names:font-hash-shape(6 upper-case letters, BaseFont = hash+family, distinct)', fok, str(font_runs[0])[:600])
+    coq, kept = [], []
+    for c, (st, o) in zip(cases, names_runs[0]):
+        if st != 'ok':
+            run.fail('Stream naming call raised %s' % (o,), {'stream': 'names-direct', 'case': c}, signature='c19:names-raise')
+            continue
+        if o.get('bad_sid'):
+            continue
+        dl = '; '.join('(%s)' % ', '.join('[%s]' % '; '.join(namelit(x) for x in cat) for cat in d) for d in o['dicts'])
+        il = '; '.join('(%s, Some (%d))' % (namelit(nm), r) for nm, r in o['images'])
+        coq.append('([%s], [%s], [%s], [%s])' % ('; '.join(calllit(x) for x in c['calls']), '; '.join(namelit(x) for x in o['names']), dl, il))
+        kept.append((c, o))
+    try:
+        masks = common.eval_cases('c19names', PRE_NAMES, 'ncase', coq, 'names_judge')
+        mism = [(c, o) for (c, o), m in zip(kept, masks) if m & 1]
+        run.oblige('corr:names-direct(model vs Stream.set_alpha/set_state/add_group/add_pattern/add_shading/add_image)', not mism,
+                   'first disagreements: %s' % mism[:2])
+        for (c, o), m in zip(kept, masks):
+            if m & 2:
+                report(run, 'image dpi ratio depends on the iteration order of the set', {'stream': 'names-direct', 'case': c, 'impl': o},
+                       'c19:ratio-depends-on-set-order')
+                break
+    except RuntimeError as exc:
+        run.oblige('corr:names-direct', False, str(exc))
+    orders = {json.dumps(o['set_orders']) for r in names_runs for st, o in r if st == 'ok' and 'set_orders' in o}
+    run.count('names-direct', len(kept) * 4 + 4, [tuple(map(tuple, c['calls'])) for c, _ in kept], samples=[kept[1][0] if len(kept) > 1 else kept[0][0]])
+    run.stream_info('names-direct', hash_seeds=4, distinct_set_iteration_orders_seen=len(orders),
+                    rule='1..25 random naming calls on real Stream objects (clones through add_group/add_pattern share the images '
+                         'table), executed in 4 fresh interpreters with PYTHONHASHSEED 0..3: outputs identical, and equal to the model '
+                         '(names_judge, Coq); fonts of a render with 4 families: hash/name identical under the 4 seeds')
+
+
+# ======================================================================================================================
+# stream 3: zoom
+
+PRE_ZOOM = ('From Coq Require Import QArith List Bool.\nRequire Import WV.model.C19Pdf.\nImport ListNotations.\nOpen Scope Q_scope.\n')
+
+
+def ql(xs):
+    return '[%s]' % '; '.join(qlit(Fraction(x)) for x in xs)
+
+
+def stream_zoom_direct(run, rng, n):
+    cases = []
+    zs = [Fraction(1, 10), Fraction(1, 2), Fraction(1), Fraction(2), Fraction(37, 10), Fraction(10), Fraction(3, 4), Fraction(1, 4), Fraction(8)]
+    for i in range(n):
+        z = zs[i % len(zs)] if i < 4 * len(zs) else Fraction(rng.randint(1, 100), rng.choice([1, 2, 4, 8, 10, 3]))
+        bl = [str(Fraction(rng.choice([0, 0, 1, 3, 5, 8, 13, 20, 40]), rng.choice([1, 1, 2]))) for _ in range(4)]
+        if rng.random() < 0.4:
+            bl = [bl[0]] * 4
+        w, h = rng.choice([100, 200, 595, 333]), rng.choice([50, 100, 842, 271])
+        links = [[str(Fraction(rng.randint(0, w), rng.choice([1, 2]))), str(Fraction(rng.randint(0, h))), str(Fraction(rng.randint(0, w))),
+                  str(Fraction(rng.randint(0, h), rng.choice([1, 4])))] for _ in range(rng.randint(0, 3))]
+        pts = [[str(Fraction(rng.randint(0, w))), str(Fraction(rng.randint(0, h), rng.choice([1, 2])))] for _ in range(rng.randint(0, 2))]
+        cases.append({'zoom': str(z), 'pages': [{'w': str(w), 'h': str(h), 'bleed': bl, 'links': links, 'anchors': pts,
+                                                 'bookmarks': [[str(rng.randint(0, w)), str(rng.randint(0, h))]]}]})
+    outs = common.run_impl('impl_c19', 'zoom_direct', cases, limit=60, chunksize=16)
+    coq, kept = [], []
+    for c, (st, o) in zip(cases, outs):
+        if st != 'ok':
+            run.fail('generate_pdf raised on stub pages: %s' % (o,), {'stream': 'zoom-direct', 'case': c}, signature='c19:zoom-direct-raise')
+            continue
+        p, r = c['pages'][0], o['pages'][0]
+        z = Fraction(c['zoom'])
+        dyadic = (z.denominator & (z.denominator - 1)) == 0 and all((Fraction(b).denominator & (Fraction(b).denominator - 1)) == 0 for b in p['bleed'])
+        eps = Fraction(0) if dyadic else Fraction(1, 10 ** 12)
+        rects = ['((%s, %s, %s, %s), %s)' % (*[qlit(Fraction(x)) for x in l], ql(rr)) for l, rr in zip(p['links'], r['rects'])]
+        rects += ['((%s, %s, %s, %s), %s)' % (qlit(Fraction(a[0])), qlit(Fraction(a[1])), qlit(Fraction(a[0])), qlit(Fraction(a[1])), ql(d + d))
+                  for a, d in zip(p['anchors'], r['dests'])]
+        rects += ['((%s, %s, %s, %s), %s)' % (qlit(Fraction(a[0])), qlit(Fraction(a[1])), qlit(Fraction(a[0])), qlit(Fraction(a[1])), ql(d + d))
+                  for a, d in zip(p['bookmarks'], r['outlines'])]
+        # the model is given the float actually used as zoom (exact), so only arithmetic rounding is tolerated
+        coq.append('(%s, pmk %s %s %s %s %s %s, %s, %s, %s, %s, %s, [%s])' % (
+            qlit(Fraction(o['zoom_float'])), qlit(Fraction(p['w'])), qlit(Fraction(p['h'])), *[qlit(Fraction(b)) for b in p['bleed']],
+            qlit(eps), ql(r['media']), ql(r['trim']), ql(r['bleed']), ql(r['ctm']), '; '.join(rects)))
+        kept.append((c, o, len(rects)))
+    try:
+        masks = common.eval_cases('c19zoom', PRE_ZOOM, 'zcase', coq, 'zoom_judge')
+        mism = [(c, o) for (c, o, _), m in zip(kept, masks) if m & 1]
+        run.oblige('corr:zoom-direct(model vs generate_pdf on stub pages: MediaBox, TrimBox, BleedBox, CTM, Rects, destinations)', not mism,
+                   'first disagreements: %s' % mism[:2])
+        for (c, o, _), m in zip(kept, masks):
+            if m & 2:
+                report(run, 'a page coordinate at zoom z is not z times the zoom-1 coordinate', {'stream': 'zoom-direct', 'case': c, 'impl': o},
+                       'c19:zoom-not-linear')
+                break
+        run.count('zoom-direct', len(kept), [(c['zoom'], tuple(c['pages'][0]['bleed']), c['pages'][0]['w'], n) for c, _, n in kept],
+                  samples=[kept[0][0]])
+        run.stream_info('zoom-direct', rule='generate_pdf on stub pages with rational sizes/bleeds (0..40 px, so both sides of the 10 pt '
+                        'BleedBox cap), 0..3 link rectangles, anchors, a bookmark; zoom in {0.1, 0.5, 1, 2, 3.7, 10, ...} and random n/d; '
+                        'floats read back exactly; judged in Coq (zoom_judge) with tolerance 0 for dyadic inputs, 1e-12 otherwise')
+    except RuntimeError as exc:
+        run.oblige('corr:zoom-direct', False, str(exc))
+
+
+def _close(a, b, z):
+    return a is not None and b is not None and abs(a - b) <= 1.6e-6 * (1 + z) + 1e-9 * abs(b)
+
+
+def stream_zoom_render(run, rng, n):
+    docs = []
+    for i in range(n):
+        d = gen_doc(rng, nblocks=rng.randint(2, 4), bleed=(i % 2 == 0),
+                    feats=['p', 'h', 'form', 'img', 'svg', 'deco', 'table', 'flex', 'toc', 'list', 'transform', 'abs'])
+        d['opts'] = {'pdf_forms': True} if i % 3 == 0 else {}
+        d['zooms'] = ZOOMS
+        docs.append(d)
+    nboxes, nannots = stream_zoom_render_docs(run, docs)
+    run.count('zoom-render', len(docs) * len(ZOOMS) * 2, [('doc', i) for i in range(len(docs))], samples=[docs[0]['html'][:400]])
+    run.stream_info('zoom-render', page_boxes_compared=nboxes, annotations_compared=nannots, zooms=ZOOMS,
+                    rule='documents with bleed/marks, links, forms (pdf_forms), bookmarks, images, SVG rendered at zoom 0.1, 0.5, 1, 2, 3.7, '
+                         '10; read back with pdfread: MediaBox/TrimBox, every annotation Rect, named and outline destinations and the CTM '
+                         'of the first two cm are z times their zoom-1 value (tolerance 1.6e-6(1+z): pydyf writes 6 decimals); the content '
+                         'after the scale matrix is identical; BleedBox follows the 10 pt rule; judged in Python')
+
+
+def stream_zoom_render_docs(run, docs):
+    outs = common.run_impl('impl_c19', 'zoom_render', docs, limit=240, chunksize=1)
+    nboxes = nannots = 0
+    for d, (st, o) in zip(docs, outs):
+        if st != 'ok':
+            report(run, 'render at several zooms raised/timed out: %s' % (str(o)[:300],), {'stream': 'zoom-render', 'doc': d},
+                   'crash:%s' % ((o or {}).get('site'),) if st == 'exc' else 'timeout')
+            continue
+        base = o['fresh'][ZOOMS.index(1)]
+        for z, g in zip(ZOOMS, o['fresh']):
+            bad = None
+            if len(g['pages']) != len(base['pages']):
+                bad = ('page-count', len(g['pages']), len(base['pages']))
+            for pi, (pg, pb) in enumerate(zip(g['pages'], base['pages'])):
+                if bad:
+                    break
+                for k in ('MediaBox', 'TrimBox'):
+                    nboxes += 1
+                    if not all(_close(a, z * b, z) for a, b in zip(pg[k], pb[k])):
+                        bad = (k, pi, pg[k], pb[k])
+                if not all(_close(a, z * b, z) for a, b in zip(pg['ctm'], pb['ctm'])) or pg['ncm'] != 2:
+                    bad = bad or ('ctm', pi, pg['ctm'], pb['ctm'])
+                if pg['rest'] != pb['rest']:
+                    bad = bad or ('content-after-the-scale-matrix', pi, pg['nops'], pb['nops'])
+                if len(pg['annots']) != len(pb['annots']):
+                    bad = bad or ('annotation-count', pi)
+                for ag, ab in zip(pg['annots'], pb['annots']):
+                    nannots += 1
+                    if ag['subtype'] != ab['subtype'] or not all(_close(a, z * b, z) for a, b in zip(ag['rect'], ab['rect'])):
+                        bad = bad or ('annotation-rect', pi, ag, ab)
+                # BleedBox: judged against the cap rule (model), linear only within the cap
+                cap_ok = all(_close(tb - bbx, min(10.0, tb - mb) if i < 2 else max(-10.0, tb - mb), z) or _close(tb - bbx, tb - mb, z)
+                             for i, (bbx, tb, mb) in enumerate(zip(pg['BleedBox'], pg['TrimBox'], pg['MediaBox'])))
+                if not cap_ok:
+                    bad = bad or ('bleedbox-rule', pi, pg['BleedBox'], pg['TrimBox'], pg['MediaBox'])
+                lin_bleed = all(_close(a, z * b, z) for a, b in zip(pg['BleedBox'], pb['BleedBox']))
+                if not lin_bleed and not bad:
+                    report(run, 'BleedBox at zoom %s is not %s times the zoom-1 BleedBox (10 pt cap)' % (z, z),
+                           {'stream': 'zoom-render', 'doc': d, 'zoom': z, 'page': pi, 'got': pg['BleedBox'], 'base': pb['BleedBox']},
+                           'c19:bleedbox-cap-not-scaled')
+                fs_bad = [(ag['font_size'], ab['font_size']) for ag, ab in zip(pg['annots'], pb['annots'])
+                          if ag['font_size'] is not None and ab['font_size'] and not _close(ag['font_size'], z * ab['font_size'], z)]
+                if fs_bad and not bad:
+                    report(run, 'form field font size at zoom %s is %s, %s at zoom 1: not scaled' % (z, fs_bad[0][0], fs_bad[0][1]),
+                           {'stream': 'zoom-render', 'doc': d, 'zoom': z, 'page': pi}, 'c19:form-font-size-ignores-zoom')
+            for (na, xa, ya), (nb, xb, yb) in zip(g['dests'], base['dests']):
+                if na != nb or not _close(xa, z * xb, z) or not _close(ya, z * yb, z):
+                    bad = bad or ('named-destination', na, (xa, ya), (xb, yb))
+            for (ta, xa, ya), (tb_, xb, yb) in zip(g['outlines'], base['outlines']):
+                if ta != tb_ or not _close(xa, z * xb, z) or not _close(ya, z * yb, z):
+                    bad = bad or ('outline-destination', ta, (xa, ya), (xb, yb))
+            if len(g['dests']) != len(base['dests']) or len(g['outlines']) != len(base['outlines']):
+                bad = bad or ('destination-count',)
+            if bad:
+                report(run, 'zoom %s does not scale the PDF uniformly: %s' % (z, str(bad)[:300]),
+                       {'stream': 'zoom-render', 'doc': d, 'zoom': z, 'clause': bad[0]}, 'c19:zoom:%s' % bad[0])
+                break
+        # the same Document written at the six zooms: same content as the fresh renders
+        for z, g, f in zip(ZOOMS, o['same_document'], o['fresh']):
+            if [p['rest'] for p in g['pages']] != [p['rest'] for p in f['pages']]:
+                report(run, 'one Document written at several zooms: page content differs from a fresh render at zoom %s' % z,
+                       {'stream': 'zoom-render', 'doc': d, 'zoom': z},
+                       'c19:marks-layer-accumulates-on-rewrite' if has_marks(d) else 'c19:document-rewrite-differs')
+                break
+    return nboxes, nannots
+
+
+# ======================================================================================================================
+# stream 4: Document.copy
+
+def stream_copy(run, rng, n):
+    cases = [{'n': 3, 'sel': None}, {'n': 0, 'sel': None}, {'n': 4, 'sel': []}, {'n': 4, 'sel': [3, 3, 0], 'as_iter': True}]
+    for _ in range(n):
+        k = rng.randint(0, 9)
+        sel = None if rng.random() < 0.15 else [rng.randrange(k) for _ in range(rng.randint(0, 6))] if k else []
+        cases.append({'n': k, 'sel': sel, 'as_iter': rng.random() < 0.3, 'as_tuple': rng.random() < 0.3})
+    outs = common.run_impl('impl_c19', 'copy_direct', cases, limit=30, chunksize=32)
+    bad = []
+    for c, (st, o) in zip(cases, outs):
+        want = list(range(c['n'])) if c['sel'] is None else c['sel']        # the model: copy_selects_exactly
+        ok = st == 'ok' and o['pages'] == want and o['same_objects'] and o['meta'] and o['fetcher'] and o['fc'] and o['fonts'] == 0 and \
+            o['original'] == list(range(c['n'])) and o['original_fonts'] == 1 and o['new_object'] and o['is_list']
+        if not ok:
+            bad.append((c, o))
+    run.oblige('corr:copy-direct(model copy vs Document.copy on stub pages)', not bad, str(bad[:2]))
+    for c, o in bad[:1]:
+        run.fail('Document.copy does not select exactly the given pages', {'stream': 'copy-direct', 'case': c, 'impl': o}, signature='c19:copy-direct')
+    run.count('copy-direct', len(cases), [(c['n'], tuple(c['sel']) if c['sel'] is not None else None) for c in cases], samples=[cases[3]])
+    # renders
+    docs = []
+    for i in range(max(4, n // 12)):
+        d = gen_doc(rng, nblocks=rng.randint(4, 8))
+        d['sels'] = [[0], [rng.randrange(9)], [rng.randrange(9) for _ in range(rng.randint(0, 4))], list(range(8, -1, -1))]
+        docs.append(d)
+    outs = common.run_impl('impl_c19', 'copy_render', docs, limit=240, chunksize=1)
+    ncopies = 0
+    for d, (st, o) in zip(docs, outs):
+        if st != 'ok':
+            report(run, 'render for copy raised: %s' % (str(o)[:300],), {'stream': 'copy-render', 'doc': d},
+                   'crash:%s' % ((o or {}).get('site'),) if st == 'exc' else 'timeout')
+            continue
+        if not o['original_unchanged']:
+            report(run, 'writing copies changed the original Document (bytes or layout)', {'stream': 'copy-render', 'doc': d},
+                   'c19:marks-layer-accumulates-on-rewrite' if has_marks(d) else 'c19:copy-changes-original')
+        for c in o['copies']:
+            ncopies += 1
+            if 'exc' in c:
+                run.fail('copy(...).write_pdf raised %s' % (c['exc'],), {'stream': 'copy-render', 'doc': d, 'sel': c['sel']},
+                         signature='crash:%s' % (c['exc']['site'],))
+                continue
+            want = [o['full'][i] for i in c['sel']]
+            # dedupe: sel may name a page twice; npages == 0 -> sel == []
+            if [tuple(map(repr, p)) for p in c['pages']] != [tuple(map(repr, p)) for p in want] or c['problems']:
+                if has_marks(d) and [p[0] for p in c['pages']] == [p[0] for p in want]:
+                    report(run, 'copy: page content differs from the full document (marks layer drawn once more)',
+                           {'stream': 'copy-render', 'doc': d, 'sel': c['sel']}, 'c19:marks-layer-accumulates-on-rewrite')
+                else:
+                    run.fail('copy(pages).write_pdf does not output exactly the selected pages: sel %s, got %d pages' % (c['sel'], len(c['pages'])),
+                             {'stream': 'copy-render', 'doc': d, 'sel': c['sel'], 'got': c['pages'], 'want': want}, signature='c19:copy-render')
+    run.count('copy-render', ncopies, [('doc', i) for i in range(len(docs))])
+    run.stream_info('copy-render', rule='multi-page random documents; copies of one page, a random page, a random multiset, all pages reversed; '
+                    'every page of the copy has the MediaBox and the content stream (resource names replaced by their rank of first use: '
+                    'they are document-wide counters) of the page selected; the original writes the same bytes afterwards')
+
+
+# ======================================================================================================================
+# stream 5: flex write-back, one pass against two passes of the same boxes
+
+PRE_RELAYOUT = ('From Coq Require Import QArith List Bool.\nRequire Import WV.model.C19Relayout.\nImport ListNotations.\nOpen Scope Q_scope.\n')
+
+
+def gen_flex(rng):
+    nl = rng.choice([1, 1, 2, 2, 3])
+    lines = []
+    for _ in range(nl):
+        line = []
+        for _ in range(rng.randint(1, 3)):
+            line.append({'style': rng.choice([None, None, None, 10, 20, 35]), 'nat': rng.choice([0, 10, 10, 20, 30]),
+                         'pad': rng.choice([0, 0, 2, 5]), 'stretch': rng.random() < 0.7, 'clip': True})
+        lines.append(line)
+    gap = rng.choice([0, 0, 5])
+    # the model covers non-negative free space (with a negative one the automatic minimum size of the items comes in)
+    need = sum(max((it['style'] if it['style'] is not None else it['nat']) + it['pad'] for it in l) for l in lines) + gap * (nl - 1)
+    cross = rng.choice([None, None, 100, 150, 60, 200])
+    if cross is not None and cross < need:
+        cross = need + rng.choice([0, 10, 33])
+    return {'cross': cross, 'gap': gap, 'lines': lines}
+
+
+def flex_coq(c):
+    ls = '; '.join('[%s]' % '; '.join('imk %s %s %s %s' % ('None' if it['style'] is None else '(Some %s)' % qlit(it['style']),
+                                                             qlit(it['nat']), qlit(it['pad']), 'true' if it['stretch'] else 'false')
+                                       for it in l) for l in c['lines'])
+    return 'cmk %s %s [%s]' % ('None' if c['cross'] is None else '(Some %s)' % qlit(c['cross']), qlit(c['gap']), ls)
+
+
+def stream_relayout(run, rng, n):
+    cases = [{'cross': 100, 'gap': 0, 'lines': [[{'style': None, 'nat': 10, 'pad': 0, 'stretch': True, 'clip': True}],
+                                                 [{'style': 20, 'nat': 10, 'pad': 0, 'stretch': False, 'clip': True}]]}]      # the Coq witness
+    cases += [gen_flex(rng) for _ in range(n)]
+    outs = common.run_impl('impl_c19', 'relayout_flex', cases, limit=120, chunksize=4)
+    coq, kept = [], []
+    premise = 0
+    for c, (st, o) in zip(cases, outs):
+        if st != 'ok':
+            report(run, 'flex render raised: %s' % (str(o)[:300],), {'stream': 'relayout', 'case': c},
+                   'crash:%s' % ((o or {}).get('site'),) if st == 'exc' else 'timeout')
+            continue
+        if o['once']['passes'] != 1 or o['twice']['passes'] != 2:
+            premise += 1
+            continue
+
+        def obs(x):
+            return '[%s]' % '; '.join('(%s, %s)' % (qlit(Fraction(l[0][0])), ql(l[1])) for l in x['lines'])
+        # all items of a line start at the line start
+        coq.append('(%s, %s, %s)' % (flex_coq(c), obs(o['once']), obs(o['twice'])))
+        kept.append((c, o))
+    run.oblige('relayout:premise(one pass / two passes of flex_layout observed)', premise <= len(cases) // 10,
+               '%d of %d cases did not show 1 and 2 calls of flex_layout' % (premise, len(cases)))
+    try:
+        masks = common.eval_cases('c19relayout', PRE_RELAYOUT, 'rcase', coq, 'relayout_judge')
+        mism = [(c, o) for (c, o), m in zip(kept, masks) if m & 1]
+        run.oblige('corr:relayout(model layout / layout(after) vs one-pass / two-pass renders)', not mism, 'first disagreements: %s' % mism[:2])
+        run.oblige('witness:relayout-refutation-replayed(second layout pass differs on the implementation)', bool(masks) and bool(masks[0] & 2),
+                   'mask of the witness: %s' % masks[:1])
+        nd = 0
+        for (c, o), m in zip(kept, masks):
+            if m & 2:
+                nd += 1
+                multi_definite = c['cross'] is not None and len(c['lines']) > 1
+                report(run, 'a flex container laid out twice (pushed to the next page) differs from the same container laid out once',
+                       {'stream': 'relayout', 'case': c, 'impl': o},
+                       'c19:flex-stretch-writeback-relayout' if multi_definite else 'c19:relayout-differs')
+        run.count('relayout', len(kept), [json.dumps(c, sort_keys=True) for c, _ in kept], samples=[kept[0][0]])
+        run.stream_info('relayout', second_pass_differs=nd,
+                        rule='wrapping row flex containers (1..3 lines of 1..3 items; height auto / 10..35 px, 0..3 text lines, padding, '
+                             'stretch / flex-start; container height auto or definite; row gap) rendered alone (one flex_layout call) and '
+                             'after a spacer inside a break-inside:avoid block that overflows (two calls on the same boxes); item positions '
+                             'and heights against layout c and layout (after c) (relayout_judge, Coq, tolerance 1e-9 px)')
+    except RuntimeError as exc:
+        run.oblige('corr:relayout', False, str(exc))
+    (st1, gx), (st2, gy) = common.run_impl('impl_c19', 'relayout_grid', [{'axis': 'x'}, {'axis': 'y'}], limit=60)
+    if st1 == 'ok' and st2 == 'ok' and (gx['once'] != gx['twice'] or gy['once'] != gy['twice']):
+        report(run, 'a grid laid out twice sizes its auto tracks differently: %s vs %s' % (gx['once'], gx['twice']),
+               {'stream': 'relayout', 'grid': [gx, gy]}, 'c19:grid-stretch-writeback-relayout')
+
+
+# ======================================================================================================================
+# stream 7: minimal witnesses of the findings handed over, replayed at every run
+
+PROBES = [
+    ('inline-svg', 'c19:inline-svg-mutates-html-tree', lambda o: all(v['tree_mutated'] and v['second_render_differs'] for v in o.values())),
+    ('marks', 'c19:marks-layer-accumulates-on-rewrite', lambda o: o['rewrite_differs']),
+    ('cache-options', 'c19:image-cache-ignores-options', lambda o: any(o.values())),
+    ('cache-dpi', 'c19:image-cache-dpi-overwrites-source', lambda o: o['warm_differs'] or o['jpeg_reencoded_each_render']),
+    ('fonts-persist', 'c19:document-fonts-persist-across-writes', lambda o: o['full_fonts_after_default_write_differs']),
+    ('copy-pdfua', 'c19:copy-loses-html-for-pdfua', lambda o: o['raises']),
+    ('attachment-clock', 'c19:attachment-dates-from-clock', lambda o: o['depends_on_clock']),
+    ('diskcache', 'c19:diskcache-del-removes-shared-folder', lambda o: o['raises'] or not o.get('same', True)),
+    ('form-zoom', 'c19:form-font-size-ignores-zoom', lambda o: o['font_not_scaled']),
+    ('bleedbox', 'c19:bleedbox-cap-not-scaled', lambda o: o['not_linear']),
+]
+
+
+def stream_probes(run):
+    outs = common.run_impl('impl_c19', 'probe', [{'name': p[0]} for p in PROBES], limit=120, chunksize=1)
+    state = {}
+    for (name, sig, pred), (st, o) in zip(PROBES, outs):
+        if st != 'ok':
+            state[name] = 'probe failed: %s' % (str(o)[:200],)
+            run.oblige('probe:%s-ran' % name, False, str(o)[:1500])
+            continue
+        if pred(o):
+            state[name] = 'reproduces'
+            report(run, 'witness %s: %s' % (name, json.dumps(o)[:400]), {'stream': 'probes', 'probe': name, 'observed': o}, sig)
+        else:
+            state[name] = 'no longer reproduces'
+    run.count('probes', len(PROBES), [(p[0],) for p in PROBES])
+    run.stream_info('probes', state=state, rule='one minimal witness per finding of this check (see the final report), replayed at every run; '
+                    'a witness that stops reproducing is recorded here, not failed')
+
+
 def check(run):
     rng = random.Random(run.seed * 7919 + 19)
     thorough = run.tier == 'thorough'
+    only = os.environ.get('C19_ONLY', '').split(',') if os.environ.get('C19_ONLY') else None
+    if not only or 'prove' in only:
+        common.prove(run, 'C19', ['model/C19Cache.vo', 'model/C19Names.vo', 'model/C19Pdf.vo', 'model/C19Relayout.vo'])
+    run.trusted += ['Coq 8.16.1 kernel (coqc); vm_compute for the cases.v evaluation',
+                    'hand models coq/model/C19*.v, tied to /repo only by the direct-call correspondence streams',
+                    'harness/impl_c19.py (runner, deep description of objects, stubs), harness/pdfread.py, the Python judges of the '
+                    'zoom-render / copy-render streams and of the differential monitor',
+                    'CPython, Pango, fontconfig, Pillow, fontTools as installed: the monitor compares executions, it does not model them']
+    run.assumptions += ['the url_fetcher and the decoders are deterministic functions (model of the cache); a flaky fetcher is outside',
+                        'hash-seed independence, module-level state, dict/set iteration order, object addresses: differential only',
+                        'relayout model: row container, cross axis only, box-sizing content-box, no auto margins, min/max-height auto']
     k = 8 if thorough else 1
-    stream_monitor(run, rng, 24 * k, 96 * k, 16 * (4 if thorough else 1))
+
+    def want(name):
+        return not only or name in only
+    if want('cache'):
+        stream_cache(run, rng, 400 * k)
+    if want('names'):
+        stream_names(run, rng, 300 * k)
+    if want('zoomd'):
+        stream_zoom_direct(run, rng, 200 * k)
+    if want('zoomr'):
+        stream_zoom_render(run, rng, 8 * k)
+    if want('copy'):
+        stream_copy(run, rng, 150 * k)
+    if want('relayout'):
+        stream_relayout(run, rng, 60 * k)
+    if want('probes'):
+        stream_probes(run)
+    if want('monitor'):
+        stream_monitor(run, rng, 24 * k, 96 * k, 16 * (4 if thorough else 1))
+
+
+def _obs_value(obs):
+    return ('exc', tuple(obs['exc']['site'] or ()), obs['exc']['type']) if 'exc' in obs else ('pdf', obs['pdf'], obs['len'])
 
 
 def replay(data):
+    d = data.get('data', {})
+    st = d.get('stream')
+    if st == 'monitor':
+        clause = d.get('clause')
+        if clause in ('layout', 'pdf-bytes'):
+            vals = []
+            for side in ('a', 'b'):
+                case = d['job_' + side]
+                (s_, o), = common.run_impl('impl_c19', 'spawn', [case], limit=700)
+                if s_ != 'ok' or o.get('crashed'):
+                    print('replay: interpreter failed', o)
+                    return 1
+                w = d[side]
+                h = [x for x in o['histories'] if x['id'] == w['history']][0]
+                obs = h['steps'][w['step']]
+                vals.append(tuple(obs.get('layout', ())) if clause == 'layout' else _obs_value(obs))
+                print('replay: %s [%s] -> %s' % (side, w, str(vals[-1])[:200]))
+            return 1 if vals[0] != vals[1] else 0
+        (s_, o), = common.run_impl('impl_c19', 'spawn', [d['job']], limit=700)
+        if s_ != 'ok' or o.get('crashed'):
+            print('replay: interpreter failed', o)
+            return 1
+        bad = bool(o['module_mutated'])
+        for h in o['histories']:
+            for obs in h['steps']:
+                if obs['mutated'] or obs.get('rewrite_same') is False or obs.get('ret_none') is False:
+                    print('replay:', h['id'], {k: obs.get(k) for k in ('mutated', 'rewrite_same', 'ret_none')})
+                    bad = True
+        print('replay: module state mutated:', o['module_mutated'])
+        return 1 if bad else 0
+    run = common.Run('C19', 'replay', 0)
+    rng = random.Random(0)
+    if st == 'cache-direct':
+        (s_, o), = common.run_impl('impl_c19', 'cache_history', [d['case']])
+        print('replay: implementation observations', s_, (o or {}).get('obs'), 'fetches', (o or {}).get('fetched'))
+        print('class of the history:', history_class(d['case']['history']))
+        return 1
+    if st == 'names-direct':
+        jobs = [{'hashseed': s, 'job': {'docs': [], 'histories': [], 'module_snapshot': False,
+                                        'direct': {'fn': 'names_case', 'cases': [d['case']]}}} for s in range(4)]
+        outs = common.run_impl('impl_c19', 'spawn', jobs, limit=300, chunksize=1)
+        res = [json.dumps(o['direct'][0]) for _, o in outs]
+        print('replay: outputs under 4 hash seeds:', res)
+        return 1 if len(set(res)) > 1 else 0
+    if st == 'zoom-direct':
+        (s_, o), = common.run_impl('impl_c19', 'zoom_direct', [d['case']])
+        print('replay:', s_, o)
+        return 1
+    if st == 'zoom-render':
+        stream_zoom_render_docs(run, [d['doc']])
+        print('replay:', [v['what'][:300] for v in run.violations], [w[:200] for _, w in run.known_hits])
+        return 1 if run.violations else 0
+    if st in ('copy-direct', 'copy-render'):
+        if st == 'copy-direct':
+            (s_, o), = common.run_impl('impl_c19', 'copy_direct', [d['case']])
+            print('replay:', s_, o)
+            return 1
+        (s_, o), = common.run_impl('impl_c19', 'copy_render', [d['doc']], limit=240)
+        print('replay:', s_, {k: v for k, v in (o or {}).items() if k != 'full'} if s_ == 'ok' else o)
+        return 1
+    if st == 'relayout':
+        if 'case' in d:
+            (s_, o), = common.run_impl('impl_c19', 'relayout_flex', [d['case']], limit=120)
+            print('replay:', s_, o)
+            return 1 if s_ != 'ok' or o['once']['lines'] != o['twice']['lines'] else 0
+        print('replay: grid', common.run_impl('impl_c19', 'relayout_grid', [{'axis': 'x'}, {'axis': 'y'}], limit=60))
+        return 1
+    if st == 'probes':
+        (s_, o), = common.run_impl('impl_c19', 'probe', [{'name': d['probe']}], limit=120)
+        pred = [p for p in PROBES if p[0] == d['probe']][0][2]
+        print('replay:', s_, o)
+        return 1 if s_ != 'ok' or pred(o) else 0
+    print('nothing to replay for', st)
     return 0
